@@ -78,7 +78,14 @@ class CallMixin:
     def call(self, st: State, fv, args, kwargs, node=None):
         if isinstance(fv, Union):
             if st.spec:
-                vals = [(c, self.call(st, x, args, kwargs, node)) for c, x in fv.alts]
+                vals = []
+                for c, x in fv.alts:
+                    try:
+                        vals.append((c, self.call(st, x, args, kwargs, node)))
+                    except PyRaise:
+                        continue      # partial operation: unspecified where it is undefined
+                if not vals:
+                    raise OutsideSubset("spec expression undefined on every alternative")
                 out = vals[-1][1]
                 for c, x in reversed(vals[:-1]):
                     out = self.merge(st, c, x, out)
@@ -283,7 +290,9 @@ class CallMixin:
         # definitional axiom for this application (fuel-limited, closed over enclosing bound variables)
         key = app.sexpr()
         done = st.ghost.setdefault("__unfolded", set())
-        if key not in done and st.fuel > 0:
+        abstract = len(sf.node.body) >= 1 and isinstance(sf.node.body[-1], ast.Expr) and isinstance(sf.node.body[-1].value, ast.Constant) \
+            and sf.node.body[-1].value.value is Ellipsis
+        if key not in done and st.fuel > 0 and not abstract:
             done.add(key)
             st.fuel -= 1
             try:
@@ -310,6 +319,10 @@ class CallMixin:
     def unfold_spec(self, st, sf: SpecFn, ps, vals):
         env = {}
         for (p, t), v in zip(ps, vals):
+            if isinstance(v, Z) and t.kind == "ref" and v.t.kind == "ref":
+                v = Z(t, v.e)       # inside the spec function the static class is the declared one
+            elif t.is_smt() and not isinstance(v, Z):
+                v = self.to_z(st, v, t)
             env[p] = v
         fr = Frame(env, sf.module, sf.name)
         fr.spec_module = sf.module
@@ -332,7 +345,10 @@ class CallMixin:
             a = self.truthy(st, self.ev_spec(st, A[0]))
             if is_false(a):
                 return zbool(True)
-            b = self.truthy(st, self.ev_spec(st, A[1]))
+            try:
+                b = self.truthy(st, self.ev_spec(st, A[1]))
+            except PyRaise:
+                b = st.fresh("unspecified", Bool)   # partial operation in the consequent: unspecified where it is undefined
             return zbool(z3.Implies(a, b))
         if name == "iff":
             return zbool(self.truthy(st, self.ev_spec(st, A[0])) == self.truthy(st, self.ev_spec(st, A[1])))
@@ -412,7 +428,46 @@ class CallMixin:
             d = self.to_z(st, self.ev_spec(st, A[0]), T("dyn"))
             k = self.to_z(st, self.ev_spec(st, A[1]), T("str"))
             return zbool(z3.Select(smt.dyn_acc("DDict", 0, d.e), k.e) != smt.dyn_ctor("DAbsent"))
+        if name in ("d_int", "d_float", "d_list", "d_chars"):
+            d = self.to_z(st, self.ev_spec(st, A[0]), T("dyn")).e
+            if name == "d_int":
+                return zint(smt.dyn_acc("DInt", 0, d))
+            if name == "d_float":
+                return Z(T("float"), smt.dyn_acc("DFloat", 0, d))
+            if name == "d_list":
+                return Z(T("seq", (T("dyn"),)), smt.dyn_acc("DList", 0, d))
+            return Z(T("seq", (T("char"),)), smt.dyn_acc("DStr", 0, d))
+        if name in ("d_is_int", "d_is_float", "d_is_list", "d_is_str", "d_is_dict", "d_is_none"):
+            d = self.to_z(st, self.ev_spec(st, A[0]), T("dyn")).e
+            return zbool(smt.dyn_is({"d_is_int": "DInt", "d_is_float": "DFloat", "d_is_list": "DList", "d_is_str": "DStr",
+                                     "d_is_dict": "DDict", "d_is_none": "DNone"}[name], d))
+        if name == "d_mk_int":
+            return Z(T("dyn"), smt.dyn_ctor("DInt")(self.as_int(st, self.ev_spec(st, A[0]))))
+        if name == "d_mk_float":
+            return Z(T("dyn"), smt.dyn_ctor("DFloat")(self.to_z(st, self.ev_spec(st, A[0]), T("float")).e))
+        if name == "d_mk_list":
+            return Z(T("dyn"), smt.dyn_ctor("DList")(self.to_z(st, self.ev_spec(st, A[0]), T("seq", (T("dyn"),))).e))
+        if name == "d_mk_str":
+            return Z(T("dyn"), smt.dyn_ctor("DStr")(self.ev_spec(st, A[0]).e))
+        if name == "d_mk_dict_empty":
+            return Z(T("dyn"), smt.dyn_ctor("DDict")(z3.K(Str, smt.dyn_ctor("DAbsent"))))
+        if name == "d_set":
+            d = self.to_z(st, self.ev_spec(st, A[0]), T("dyn")).e
+            k = self.to_z(st, self.ev_spec(st, A[1]), T("str")).e
+            v = self.to_dyn(st, self.ev_spec(st, A[2]))
+            return Z(T("dyn"), smt.dyn_ctor("DDict")(z3.Store(smt.dyn_acc("DDict", 0, d), k, v)))
+        if name == "bitlen":
+            return zint(self.bitlen(st, self.as_int(st, self.ev_spec(st, A[0]))))
         raise ContractError(f"spec form {name}")
+
+    def bitlen(self, st, m):
+        """int.bit_length for m >= 0: the r with 2^(r-1) <= m < 2^r (0 for m == 0)."""
+        fn = smt.ufunc("bitlen", Int, Int)
+        r = fn(m)
+        st.axioms.append(z3.Implies(m == 0, r == 0))
+        st.axioms.append(z3.Implies(m > 0, z3.And(r >= 1, smt.pow2_term(r - 1) <= m, m < smt.pow2_term(r))))
+        st.axioms.append(r >= 0)
+        return r
 
     def ev_spec(self, st, node):
         st.spec += 1
@@ -559,6 +614,13 @@ class CallMixin:
             o.fields["args"] = PyTuple(args)
         else:
             self.dataclass_init(st, info, o, args, kwargs)
+        gi = (self.classes.get(info.name) or {}).get("ghost_init") or {}
+        for gname, gexpr in gi.items():
+            st.frames.append(Frame({}, info.module, "<ghost-init>"))
+            try:
+                o.fields[gname] = self.ev_spec(st, ast.parse(gexpr, mode="eval").body)
+            finally:
+                st.frames.pop()
         post = front.lookup_method(info, "__post_init__")
         if post is not None:
             dc, node = post
